@@ -231,6 +231,23 @@ impl CompiledItem {
             Ok(Cow::Owned("\"".to_owned() + arg + "\""))
         }
 
+        /// Escape everything the bytecode argument reader treats specially, so that
+        /// an argument is read back exactly as it was emitted.
+        fn escape_arg(arg: &str) -> String {
+            let mut escaped = String::with_capacity(arg.len());
+            for c in arg.chars() {
+                match c {
+                    '\\' => escaped.push_str("\\\\"),
+                    '"' => escaped.push_str("\\\""),
+                    '\n' => escaped.push_str("\\n"),
+                    '\r' => escaped.push_str("\\r"),
+                    '\t' => escaped.push_str("\\t"),
+                    c => escaped.push(c),
+                }
+            }
+            escaped
+        }
+
         match self {
             Self::Function { id, content, .. } => {
                 let Some(ref content) = content else {
@@ -258,7 +275,7 @@ impl CompiledItem {
                 if arguments.len() >= 1 {
                     for arg in &arguments[..] {
                         args.push(' ');
-                        let replaced = arg.replace('"', "\\\"");
+                        let replaced = escape_arg(arg);
                         let arg = fix_arg_if_needed(&replaced)?;
                         args.push_str(arg.as_ref());
                     }
